@@ -355,7 +355,7 @@ with ilinit (q : pl) : ilst :=
 
 (* pipelines that exist in package iterator: no FlattenSlices, no scripted sources *)
 Definition isource_supported (s : source) : bool :=
-  match s with SScript _ | SScriptNC _ => false | _ => true end.
+  match s with SScript _ | SScriptNC _ | SError _ => false | _ => true end.
 Fixpoint iter_supported_z (p : pz) : bool :=
   match p with
   | ZSrc _ s => isource_supported s
